@@ -126,6 +126,32 @@ theorem curve_order_free {p q : List (Rat × Rat)} (h : p.Perm q) (hd : (p.map (
       rw [this]
     | _ :: _ :: _, _, _, _, h2 => exact absurd (by simp) h2
 
+/-- A list of several points that is not `Accepted` is refused at every abscissa (scipy: "x must be strictly increasing"). -/
+theorem curve_refused {pts : List (Rat × Rat)} (h2 : 2 ≤ pts.length) (h : ¬ Accepted pts) (t : Rat) :
+    curve pts t = .error "reject:abscissae not strictly increasing" := by
+  rw [curve_ge2 h2]
+  unfold Accepted at h
+  simp only [h]
+  rfl
+
+/-- What is accepted gives no abscissa twice. -/
+theorem accepted_nodup {pts : List (Rat × Rat)} (ha : Accepted pts) : (pts.map (·.1)).Nodup := by
+  obtain ⟨hl, st⟩ := accepted_strict ha
+  have nd : ((sorted pts).map (·.1)).Nodup := by
+    rw [List.nodup_iff_pairwise_ne, List.pairwise_iff_getElem]
+    intro i j hi hj hij
+    have := st.lt hij hj
+    simp only [List.getD_eq_getElem?_getD, List.getElem?_eq_getElem hi, List.getElem?_eq_getElem hj, Option.getD_some] at this
+    exact ne_of_lt this
+  have p : ((sorted pts).map (·.1)).Perm (pts.map (·.1)) := (List.mergeSort_perm pts _).map _
+  exact p.nodup_iff.mp nd
+
+/-- **A point list with an abscissa given twice is never interpolated.** -/
+theorem curve_rejects_repeated_abscissa {pts : List (Rat × Rat)} (h2 : 2 ≤ pts.length)
+    (hd : ¬ (pts.map (·.1)).Nodup) (t : Rat) :
+    curve pts t = .error "reject:abscissae not strictly increasing" :=
+  curve_refused h2 (fun ha => hd (accepted_nodup ha)) t
+
 /-- A non-trivial instance: the hypotheses are satisfiable and the statements say something (a
 consumption curve with a 110 % point: strictly increasing abscissae, a minimum inside, and the value
 at the last point).  `Accepted` on concrete lists goes through `List.mergeSort`, which the kernel does
@@ -148,6 +174,10 @@ theorem curve_single (p : Rat × Rat) (t : Rat) : curve [p] t = .ok p.2 := rfl
 /-- C07: the order in which the table of a characteristic lists its points carries no meaning. -/
 theorem curve_order_free {p q : List (Rat × Rat)} (h : p.Perm q) (hd : (p.map (·.1)).Nodup) (t : Rat) :
     curve p t = curve q t := Feems.Pchip.curve_order_free h hd t
+/-- C07: a table that gives one load twice is refused, never interpolated. -/
+theorem curve_rejects_repeated_abscissa {pts : List (Rat × Rat)} (h2 : 2 ≤ pts.length)
+    (hd : ¬ (pts.map (·.1)).Nodup) (t : Rat) :
+    curve pts t = .error "reject:abscissae not strictly increasing" := Feems.Pchip.curve_rejects_repeated_abscissa h2 hd t
 /-- C07: between the points the characteristic stays between the neighbouring given values. -/
 theorem curve_between_points {n : Nat} {x : Nat → Rat} (y : Nat → Rat) (hs : StrictOn n x) (hn : 2 ≤ n) {t : Rat}
     (h0 : x 0 ≤ t) (h1 : t ≤ x (n - 1)) :
